@@ -25,10 +25,10 @@ TARGETS = [{"path": "a"}, {"path": "b", "uses": ["a/f"]}, {"path": "c"}]
 NSLOTS = 2
 
 
-def session_cfg(depth, crashes=2, nprocs=2, script=0):
+def session_cfg(depth, crashes=2, nprocs=2, script=0, nslots=2):
     return ('CONSTANTS Procs = {%s}\n Paths = {"af", "bf", "cf"}\n Cfg <- MCCfg\n Comp <- MCComp\n N = %d\n MaxRuns = 5\n'
             ' MaxCommits = 3\n MaxEdits = 8\n EmitDepth = %d\n MaxCrashes = %d\n ScriptId = %d\nSPECIFICATION SSpec\nINVARIANTS Emit SessionInv\n'
-            'CHECK_DEADLOCK FALSE\n') % (", ".join(str(i + 1) for i in range(nprocs)), NSLOTS, depth, crashes, script)
+            'CHECK_DEADLOCK FALSE\n') % (", ".join(str(i + 1) for i in range(nprocs)), nslots, depth, crashes, script)
 
 
 def content(c):
@@ -157,7 +157,7 @@ def tag_of(doc):
     return int(m.group(1)) if m else None
 
 
-def project(fx):
+def project(fx, NSLOTS=2):
     """The real out directory in the specification's terms."""
     st = {}
     pj = fx.out_path("tracking", "run.json")
@@ -190,8 +190,8 @@ def project(fx):
 
 
 class Replay:
-    def __init__(self, bins, hist, idx):
-        self.bins, self.hist, self.idx = bins, hist, idx
+    def __init__(self, bins, hist, idx, nslots=2):
+        self.bins, self.hist, self.idx, self.nslots = bins, hist, idx, nslots
         self.mismatches = []     # (tag, why, step index)
         self.procs = {}          # model process -> Held | ("reader", api)
         self.rmap = {}           # model run number -> spawn tag
@@ -208,7 +208,7 @@ class Replay:
         return "C13" if self.run_crashed else "C12"
 
     def compare_state(self, fx, h, i, after_loser=False, after_run_crash=False):
-        real = project(fx)
+        real = project(fx, self.nslots)
         post = h["post"]
         st = post["store"]
         tag = "C14" if after_loser else ("C13" if after_run_crash else self.store_tag())
@@ -245,7 +245,7 @@ class Replay:
                         h["a"], sorted(got_p), sorted(want_p)), i)
 
     def run(self):
-        fx = fixture.Fixture(self.bins, [dict(t) for t in TARGETS], max_retained_runs=NSLOTS)
+        fx = fixture.Fixture(self.bins, [dict(t) for t in TARGETS], max_retained_runs=self.nslots)
         try:
             for t in "abc":
                 with open(os.path.join(fx.repo, t, "f"), "w") as f:
@@ -404,11 +404,11 @@ class Replay:
 NSCRIPTS = 4
 
 
-def generate(chk, n, depth, seed, crashes=2, nprocs=2):
+def generate(chk, n, depth, seed, crashes=2, nprocs=2, nslots=2):
     """n behaviours: a share of them begins with each directed prefix (mc/MCSession.tla, Script), the rest is free."""
     per_script = max(1, n // 8)
     plan = [(k, per_script) for k in range(1, NSCRIPTS + 1)] + [(0, max(1, n - NSCRIPTS * per_script))]
-    jobs = [dict(module="mc/MCSession", cfg_text=session_cfg(depth, crashes if k != 0 else crashes, nprocs, k), workers=1, timeout=900,
+    jobs = [dict(module="mc/MCSession", cfg_text=session_cfg(depth, crashes, nprocs, k, nslots), workers=1, timeout=900,
                  simulate="num=%d" % m, extra=["-depth", str(depth + 1), "-seed", str(seed + 17 * k)]) for k, m in plan]
     behs, seen = [], set()
     for (k, m), r in zip(plan, vlib.tlc_parallel(jobs)):
@@ -426,15 +426,19 @@ def generate(chk, n, depth, seed, crashes=2, nprocs=2):
     return behs
 
 
-def replay_all(bins, behs, workers=8):
+def replay_all(bins, behs, workers=8, nslots=2):
     with ThreadPoolExecutor(max_workers=workers) as ex:
-        return list(ex.map(lambda ib: Replay(bins, ib[1], ib[0]).run(), enumerate(behs)))
+        return list(ex.map(lambda ib: Replay(bins, ib[1], ib[0], nslots).run(), enumerate(behs)))
 
 
 def stage(chk, bins, pid, n, depth, crashes=2, nprocs=2):
     """Run the session replay inside a property check: violations tagged with pid are reported, the others noted."""
     behs = generate(chk, n, depth, chk.seed, crashes, nprocs)
     reps = replay_all(bins, behs)
+    if chk.tier == "thorough":
+        # three invocations in flight, three slots, more crashes
+        behs3 = generate(chk, max(8, n // 2), depth + 20, chk.seed + 1, 3, 3, 3)
+        reps += replay_all(bins, behs3, nslots=3)
     steps = sum(r.steps_done for r in reps)
     acts = {}
     for r in reps:
@@ -460,7 +464,7 @@ def stage(chk, bins, pid, n, depth, crashes=2, nprocs=2):
 
 def replay_one(pid, obj):
     bins = vlib.build()
-    r = Replay(bins, obj["hist"], 0).run()
+    r = Replay(bins, obj["hist"], 0, len(obj["hist"][0]["post"]["store"]["slot"])).run()
     mine = [m for m in r.mismatches if m[0] == pid]
     for tag, why, i in r.mismatches:
         print("REPLAY: %s: %s (step %d)" % (tag, why, i))
